@@ -174,11 +174,13 @@ End Sound.
 (** * the generated branch tables have the required shape *)
 Lemma ik_theta_def_len p pose row : In row (ik_theta_def p pose) -> length row = 6%nat.
 Proof.
-  unfold ik_theta_def. cbv zeta. intros H.
-  repeat (destruct H as [<-|H]; [reflexivity|]). destruct H.
+  intros H. apply (in_map (@length (R * bool))) in H.
+  assert (E : map (@length (R * bool)) (ik_theta_def p pose) = [6; 6; 6; 6; 6; 6; 6; 6]%nat) by reflexivity.
+  rewrite E in H. cbn [In] in H. intuition.
 Qed.
 Lemma ik_theta5_def_len p pose row : In row (ik_theta5_def p pose) -> length row = 5%nat.
 Proof.
-  unfold ik_theta5_def. cbv zeta. intros H.
-  repeat (destruct H as [<-|H]; [reflexivity|]). destruct H.
+  intros H. apply (in_map (@length (R * bool))) in H.
+  assert (E : map (@length (R * bool)) (ik_theta5_def p pose) = [5; 5; 5; 5; 5; 5; 5; 5]%nat) by reflexivity.
+  rewrite E in H. cbn [In] in H. intuition.
 Qed.
